@@ -645,9 +645,30 @@ class HierGen(Gen):
             # of the enclosing class must reach its argument
             side = self.fresh('G')
             decls.append({'name': side, 'fields': [{'name': 'item', 'ty': tv('T')}], 'opts': {}, 'hook': None, 'tvars': ['T']})
+        mixin = None
+        if r.random() < 0.35 and depth >= 2:
+            # a second base (mixin): the fields of ALL bases are merged in MRO order
+            mixin = self.fresh('M')
+            mfields = []
+            for fn in r.sample(names_pool, r.randint(1, 2)):
+                mfields.append(self.field_decl(fn, r.choice(SIMPLE_TYS), allow_required=False))
+            md = {'name': mixin, 'fields': mfields, 'opts': self.gen_opts(0) if r.random() < 0.4 else {}, 'hook': None}
+            mixin_at = r.randrange(1, depth)
+            mixin_diamond = (not generic) and mixin_at >= 2 and r.random() < 0.4
+            if not mixin_diamond:
+                decls.append(md)
         for lvl in range(depth):
             name = self.fresh('H')
             d = {'name': name, 'fields': [], 'opts': self.gen_opts(lvl), 'hook': None}
+            if r.random() < 0.4:
+                d['want_mro'] = True
+            if mixin and lvl == mixin_at:
+                if mixin_diamond:
+                    # the mixin derives from the root of the chain: a diamond
+                    md['base'] = {'cls': [decls[-lvl]['name'] if not side else decls[1]['name'], []]}
+                    md['want_mro'] = True
+                    decls.append(md)
+                d['mixins'] = [{'cls': [mixin, []], 'first': (not generic) and r.random() < 0.5}]
             avail_tvars = []
             if generic:
                 if prev is None:
